@@ -286,7 +286,7 @@ func zvfMeasureOp(kind string, rnd *mrand.Rand) zvfCMeasure {
 	for k := 1; k <= 6; k++ {
 		c := zvfNewCInst(rnd, rnd.Intn(2) == 0, true)
 		if kind == "unlock" {
-			if err := c.srv.Lock([]byte("p1")); err != nil {
+			if err := c.srv.Lock(c.pw("p1")); err != nil {
 				panic(err)
 			}
 		}
@@ -350,7 +350,7 @@ func zvfLeakScan(nreq map[string]int, rnd *mrand.Rand) []zvfCLeak {
 			for k := 1; k <= nreq[kind]; k++ {
 				c := zvfNewCInst(rnd, rnd.Intn(2) == 0, true)
 				if kind == "unlock" {
-					if err := c.srv.Lock([]byte("p1")); err != nil {
+					if err := c.srv.Lock(c.pw("p1")); err != nil {
 						panic(err)
 					}
 				}
@@ -432,7 +432,7 @@ func zvfRunExperimentP(a, b string, hold int, rnd *mrand.Rand, patience time.Dur
 	if a == "unlock" || b == "unlock" {
 		// one of them unlocks: start locked unless the other one is the locker
 		if a != "lock" && b != "lock" {
-			if err := c.srv.Lock([]byte("p1")); err != nil {
+			if err := c.srv.Lock(c.pw("p1")); err != nil {
 				panic(err)
 			}
 		}
@@ -499,7 +499,7 @@ func zvfRunBatch(bi int, n int, rnd *mrand.Rand) zvfCBatch {
 	c := zvfNewCInst(rnd, rnd.Intn(2) == 0, rnd.Intn(3) != 0)
 	defer c.close()
 	if rnd.Intn(5) == 0 {
-		if err := c.srv.Lock([]byte("p1")); err != nil {
+		if err := c.srv.Lock(c.pw("p1")); err != nil {
 			panic(err)
 		}
 	}
